@@ -82,13 +82,13 @@ func goSliceGetOwnProperty(obj *object, name string) *property {
 
 	// .0, .1, .2, ...
 	if index := stringToArrayIndex(name); index >= 0 {
-		value := Value{}
 		reflectValue, exists := obj.value.(*goSliceObject).getValue(index)
-		if exists {
-			value = obj.runtime.toValue(reflectValue.Interface())
+		if !exists {
+			// beyond the length there is no such property (`i in slice` is false)
+			return nil
 		}
 		return &property{
-			value: value,
+			value: obj.runtime.toValue(reflectValue.Interface()),
 			mode:  0o110,
 		}
 	}
